@@ -121,18 +121,22 @@ class ParserState:
 
         def associator(node: Node) -> Visit:
             association[node].add(platform.name)
+
+            # Ensure we only descend into one branch of an if/else/endif.
+            # Once a branch has been taken, the conditions of any remaining
+            # #elif directives in the chain must not be evaluated.
+            if node.is_cont_node() and branch_taken[-1]:
+                return Visit.NEXT_SIBLING
+
             active = node.evaluate_for_platform(
                 platform=platform,
                 filename=self._get_realpath(filename),
                 state=self,
             )
 
-            # Ensure we only descend into one branch of an if/else/endif.
             if node.is_start_node():
                 branch_taken.append(active)
             elif node.is_cont_node():
-                if branch_taken[-1]:
-                    return Visit.NEXT_SIBLING
                 branch_taken[-1] = active
             elif node.is_end_node():
                 branch_taken.pop()
